@@ -374,7 +374,7 @@ def h_read_addr(ctx, form, cut):
 
 # ------------------------------------------------------------------------------- instances
 STORE_TYPES = ['u1', 'u8', 'i8', 'u64', 'u256', 'i257', 'bit', 'bool', 'bits1', 'bits9', 'bytes1', 'bytes4', 'str3',
-               'mref0', 'mref1', 'dict1', 'ref', 'addr_none', 'addr_std', 'addr_ext9', 'svu', 'svi', 'coins24', 'addr_any5']
+               'mref0', 'mref1', 'dict0', 'dict1', 'ref', 'addr_none', 'addr_std', 'addr_ext9', 'svu', 'svi', 'coins24', 'addr_any5']
 
 
 def instances(tier, seed):
@@ -383,7 +383,7 @@ def instances(tier, seed):
         w = {'svu': 4 + 24, 'svi': 4 + 24, 'coins24': 4 + 24}.get(t)
         if w is None:
             import re
-            w = {'bit': 1, 'bool': 1, 'mref0': 1, 'mref1': 1, 'dict1': 1, 'ref': 0, 'addr_none': 2, 'addr_std': 267,
+            w = {'bit': 1, 'bool': 1, 'mref0': 1, 'mref1': 1, 'dict0': 1, 'dict1': 1, 'ref': 0, 'addr_none': 2, 'addr_std': 267,
                  'addr_ext9': 20, 'addr_any5': 277, 'str3': 24, 'bytes1': 8, 'bytes4': 32}.get(t)
             if w is None:
                 w = int(re.sub(r'\D', '', t))
@@ -396,7 +396,7 @@ def instances(tier, seed):
         for f in fills:
             if 0 <= f <= 1023:
                 yield 'h_store_at_fill', dict(fill=f, type_=t)
-        if tt.refs:
+        if tt.refs or t in ('mref0', 'dict0'):      # (an absent optional reference takes one bit and no reference: it fits beside 4 references)
             for pr in range(0, 5):
                 yield 'h_store_at_fill', dict(fill=5, type_=t, prerefs=pr)
     for w in ([1, 8, 64, 256] if tier == 'quick' else [1, 2, 7, 8, 9, 31, 32, 33, 63, 64, 65, 127, 255, 256]):
